@@ -97,11 +97,24 @@ int search_file_compare(const void* void_arg, const void* void_data)
 	}
 
 	ret = pread(f, arg->buffer, arg->read_size, arg->offset);
-	if (ret < 0 || (unsigned)ret != arg->read_size) {
+	if (ret < 0) {
 		/* LCOV_EXCL_START */
 		log_fatal("Error reading file '%s'. %s.\n", path, strerror(errno));
 		exit(EXIT_FAILURE);
 		/* LCOV_EXCL_STOP */
+	}
+	if ((unsigned)ret != arg->read_size) {
+		/*
+		 * If the file is now shorter than when it was listed as candidate,
+		 * just consider it as not matching.
+		 *
+		 * This happens also without any external action, because fix itself
+		 * resizes and rewrites a file found under the name of another one
+		 * (for example after a "rm A; mv B A") after it was listed here
+		 * as candidate for the file it was before.
+		 */
+		close(f);
+		return -1;
 	}
 
 	ret = close(f);
